@@ -119,6 +119,14 @@ def inputs(ctx):
         ins.append({"id": "pl%d" % n, "chain": ch, "langs": [[(1000000, 2000000, ["upper line", "lower line"]), (3000000, 4000000, ["next"])]],
                     "placed": "lines"})
         n += 1
+    # a line that holds nothing but a span no target format writes (a colour): the line stays a line of
+    # the cue (never a blank line that ends the cue block)
+    for ch in ctx._chains:
+        if ch[0] not in ("WebVTT", "DFXP", "SRT"):
+            continue
+        ins.append({"id": "sl%d" % n, "chain": ch, "silent": True,
+                    "langs": [[(1000000, 2000000, ["first", "third"]), (3000000, 4000000, ["next"])]]})
+        n += 1
     for k in range(250 if ctx.quick else 12000):
         ln = rng.choice([1, 2, 2, 3, 3, 4, 5, 6])
         if rng.random() < 0.25:
@@ -176,6 +184,12 @@ def execute(inp):
                     else:
                         nodes.append(nd)
                 cap["nodes"] = nodes
+    if inp.get("silent"):
+        # between the first and the second line: a line made of a coloured span around a blank
+        for lg in desc["langs"]:
+            cap = lg["caps"][0]
+            k = cap["nodes"].index(["b"])
+            cap["nodes"][k:k + 1] = [["b"], ["s", True, {"color": "red"}], ["t", " "], ["s", False, {"color": "red"}], ["b"]]
     cs = build.caption_set(desc)
     # text placed at two positions has no line structure to keep (WebVTT writes one cue block per
     # position): for these sets a caption's text is compared as one run of words
